@@ -1,9 +1,131 @@
 import QecVerif.Model.Wire
+import QecVerif.Model.Tensor
 namespace Qec.Drv
-open Qec Qec.Wire
+open Qec Qec.Wire Qec.Tensor
+
+namespace C11
+
+/-- tensor: `n.e.s.w:v0,v1,…` (flat numpy C order; `_` for no data) -/
+def parseT4? (s : String) : Option T4 :=
+  match s.splitOn ":" with
+  | [sh, dat] =>
+    match (sh.splitOn ".").mapM (·.toNat?) with
+    | some [n, e, s', w] => do
+        let d ← parseIntList? dat
+        if d.length = n * e * s' * w then some { n := n, e := e, s := s', w := w, d := d.toArray } else none
+    | _ => none
+  | _ => none
+
+def parseSite? (s : String) : Option Site :=
+  if s == "N" then some none else (parseT4? s).map some
+
+/-- mps: sites joined by `;`, `_` for the empty list -/
+def parseMPS? (s : String) : Option MPS :=
+  if s == "_" then some [] else (s.splitOn ";").mapM parseSite?
+
+/-- network: `RxC` then an mps token holding the `R*C` sites row-major -/
+def parseNet? (shape sites : String) : Option Net :=
+  match (shape.splitOn "x").mapM (·.toNat?) with
+  | some [r, c] => do
+      let m ← parseMPS? sites
+      if m.length = r * c then some { nrows := r, ncols := c, a := m.toArray } else none
+  | _ => none
+
+/-- mask: `N` or `RxC:bits` -/
+def parseMask? (s : String) : Option (Option Mask) :=
+  if s == "N" then some none else
+  match s.splitOn ":" with
+  | [shape, b] =>
+    match (shape.splitOn "x").mapM (·.toNat?) with
+    | some [r, c] => do
+        let v ← parseBits? b
+        if v.length = r * c then some (some { nrows := r, ncols := c, a := v.toArray }) else none
+    | _ => none
+  | _ => none
+
+/-- tol: `N`, or a decimal / rational; only truthiness matters -/
+def parseTol? (s : String) : Option Bool :=
+  if s == "N" then some false else (parseRat? s).map fun r => r != 0
+
+def showT4 (t : T4) : String :=
+  s!"{t.n}.{t.e}.{t.s}.{t.w}:" ++ showIntList t.d.toList
+
+def showSite : Site → String
+  | none => "N" | some t => showT4 t
+
+def showMPS (m : MPS) : String := if m.isEmpty then "_" else ";".intercalate (m.map showSite)
+
+def showErr : Err → String
+  | .value => "ValueError" | .type => "TypeError" | .assertion => "AssertionError" | .svd => "svd"
+
+def showRes {α} (f : α → String) : Except Err α → String
+  | .ok a => "ok " ++ f a | .error e => showErr e
+
+def showResult : Result → String
+  | .scalar v => "s " ++ toString v
+  | .part none m => "p " ++ toString m ++ " None"
+  | .part (some r) m => "p " ++ toString m ++ " " ++ showMPS r
+
+end C11
+open C11
 
 /-- driver ops of property C11 (first protocol token `c11`) -/
 def c11 : List String → Option String
+  | ["contract", shape, sites, chi, tol, start, stop, step, mask] => do
+      let tn ← parseNet? shape sites
+      let chi ← parseOptInt? chi
+      let tol ← parseTol? tol
+      let start ← parseOptInt? start
+      let stop ← parseOptInt? stop
+      let step ← parseOptInt? step
+      let mask ← parseMask? mask
+      pure (showRes showResult (contract tn chi tol start stop step mask))
+  | ["split", shape, sites, k, chi, tol, mask] => do
+      let tn ← parseNet? shape sites
+      let k ← k.toNat?
+      let chi ← parseOptInt? chi
+      let tol ← parseTol? tol
+      let mask ← parseMask? mask
+      pure (showRes toString (splitValue tn k chi tol mask))
+  | ["transpose", shape, sites] => do
+      let tn ← parseNet? shape sites
+      let t := tn.transpose
+      pure s!"ok {t.nrows}x{t.ncols} {showMPS t.a.toList}"
+  | ["exact", shape, sites] => do
+      let tn ← parseNet? shape sites
+      pure (match exactValue tn with | some v => "ok " ++ toString v | none => "undefined")
+  | ["nassign", shape, sites] => do
+      let tn ← parseNet? shape sites
+      pure (toString (nAssignments tn))
+  | ["pairwise", l, r] => do
+      let l ← parseMPS? l
+      let r ← parseMPS? r
+      pure (showRes showMPS (contractPairwise l r))
+  | ["ladder", m] => do
+      let m ← parseMPS? m
+      pure (showRes showT4 (contractLadder m))
+  | ["inner", l, r] => do
+      let l ← parseMPS? l
+      let r ← parseMPS? r
+      pure (showRes toString (innerProduct l r))
+  | ["scalar", t] => do
+      let t ← parseT4? t
+      pure (showRes toString (asScalar t))
+  | ["startstop", m] => do
+      let m ← parseMPS? m
+      pure (showRes (fun (p : Nat × Nat) => s!"{p.1},{p.2}") (startStop m))
+  | ["truncate", m, chi, tol, mask] => do
+      let m ← parseMPS? m
+      let chi ← parseOptInt? chi
+      let tol ← parseTol? tol
+      let mask ← if mask == "N" then some none else (parseBits? mask).map some
+      pure (showRes (fun (p : MPS × Int) => s!"{p.2} {showMPS p.1}") (truncate m chi tol mask))
+  | ["slice", start, stop, step, n] => do
+      let start ← parseOptInt? start
+      let stop ← parseOptInt? stop
+      let step ← parseOptInt? step
+      let n ← n.toNat?
+      pure (showRes showNatList (colRange start stop step n))
   | _ => none
 
 end Qec.Drv
